@@ -55,7 +55,7 @@ def trace_tail(out, n=60):
 
 
 def run_single(prop, seed, preset, want_case, schema_knobs=None, doc_knobs=None, vars_knobs=None,
-               faults_fn=None, plan_knobs=None, strict_calls=True, extra_check=None):
+               faults_fn=None, plan_knobs=None, strict_calls=True, extra_check=None, doc_post=None, pick_op=None):
     """Generate one request, plan it with the reference executor, run it on the real engine under
     a seeded schedule and compare.  faults_fn(case, tape, fault_free_plan) -> {path: kind}."""
     tape = Tape(seed, preset)
@@ -64,7 +64,9 @@ def run_single(prop, seed, preset, want_case, schema_knobs=None, doc_knobs=None,
         schema_knobs = schema_knobs(tape.sub("knobs"))
     if callable(doc_knobs):
         doc_knobs = doc_knobs(tape.sub("knobs"))
-    case = gen_case(tape, schema_knobs, doc_knobs, vars_knobs)
+    case = gen_case(tape, schema_knobs, doc_knobs, vars_knobs, doc_post)
+    if pick_op is not None:
+        pick_op(case, tape)
     cfg = pick_engine_cfg(cfgt)
     sched = pick_scheduler(cfgt)
     faults = None
